@@ -6,6 +6,7 @@ empty string is a visible token).
   unxml|unjson x<hex>                            -> ok x<hex> | err     (the decoders)
   scanattr|scanxmltext|scanhtmlattr|scanhtmltext|scanjson x<hex>
                                                  -> ok x<value> x<rest> | err
+  scheme x<url>                                  -> x31 | x30           (hasScheme)
   bc <x<prefix>|-> x<parent> <depth>             -> x<top-level item> x<parent item>
                                                     (the two breadcrumb `<li>` of a file page)
 -/
@@ -78,6 +79,7 @@ def step (line : String) : String :=
   | "scanhtmltext" :: args => scan scanHtmlText args
   | "scanjson" :: args => scan (scanJson []) args
   | "bc" :: args => handleBc args
+  | "scheme" :: args => enc (fun u => if hasScheme u then [49] else [48]) args
   | _ => "bad-op"
 
 end Grcov.Drv.C18
